@@ -41,7 +41,10 @@ VERIF = os.path.dirname(HERE)
 sys.path.insert(0, VERIF)
 from vlib import build, distbuild  # noqa: E402
 
-MAXRANKS = int(os.environ.get("VERIF_E4_RANKS", "8"))
+# ranks in flight.  With the timing shim (e4_pace.h) an idle rank sleeps instead
+# of spinning (measured: ~0.2 core per rank), so 16 ranks cost about as much
+# CPU as 3-4 busy threads.
+MAXRANKS = int(os.environ.get("VERIF_E4_RANKS", "16"))
 T0 = time.time()
 
 
@@ -808,8 +811,9 @@ def run_check(a, prop, tier, exe, workdir, deadline_at):
                 cell["states"] += st.get("syncs", 0)
                 cell.setdefault("nontrivial_n", 0)
                 cell["nontrivial_n"] += st.get("nontrivial", 0)
-            for o in st.get("outcomes", []):
-                cell["outcomes"].add(o)
+            if done_runs[cid] == 1:
+                cell["outcomes_n"] = cell.get("outcomes_n", 0) + \
+                    st.get("outcomes_n", 0)
             for k, v in st.get("encodings", {}).items():
                 cell["encodings"][k] = cell["encodings"].get(k, 0) + v
                 enc_total[k] = enc_total.get(k, 0) + v
@@ -914,7 +918,8 @@ def run_check(a, prop, tier, exe, workdir, deadline_at):
             transitions=cell["transitions"],
             distinct_nontrivial=(len(cell["nontrivial"]) if prop == "C19"
                                  else cell.get("nontrivial_n", 0)),
-            distinct_outcomes=len(cell["outcomes"]),
+            distinct_outcomes=(len(cell["outcomes"]) if prop == "C19"
+                               else cell.get("outcomes_n", 0)),
             inputs_planned=len(cell["planned"]),
             inputs_completed=sum(1 for cid in cell["planned"]
                                  if done_runs.get(cid, 0) >= reps),
